@@ -94,4 +94,14 @@ def main(tier):
     run.ob(bool(floats) and all(s[2] == v for s in floats), "from-f64|float-identity", "C18 the Float branch carries the argument unchanged (NaN payload, infinities, -0.0)", ff.key, "; ".join(T.show(s)[:60] for s in floats))
     n = cast_guard_rule(run, tf, "%s (%s)" % (ff.key, ff.file), "from-f64")
     run.floor("casts in From<f64>", n, 1)
+    # "no conversion changes a numeric value": every other place of eval_number that turns a double into an Integer
+    # (helpers, evaluator arms, parser, tokenizer) obeys the same guard rule -- From<f64> is not the only door
+    nother, nfn = 0, 0
+    for g in F.fns:
+        if g.evaluator != "eval_number" or not g.thir or g.derived or g is ff:
+            continue
+        nfn += 1
+        nother += cast_guard_rule(run, m.tb.fn_term(g), "%s (%s)" % (g.key, g.file), "door|%s" % g.key.replace("eval_number::", ""))
+    run.ob(True, "door-census", "C18", "eval_number", sample={"functions_scanned": nfn, "f64_to_Integer_casts_outside_From": nother})
+    run.floor("eval_number functions scanned for double->Integer conversions", nfn, 15)
     return run.finish("decision-tree summary of From<i64>/From<f64>, integrality test from an enumerated exact set, guard constants folded exactly, identity flow on the Float branch", "./check C18 --tier %s" % tier, exhaustive=True)
